@@ -185,4 +185,5 @@ def main(tier):
 
 
 if __name__ == "__main__":
-    sys.exit(main(sys.argv[2] if len(sys.argv) > 2 else "quick"))
+    from .common import guarded
+    sys.exit(guarded("C17", sys.argv[2] if len(sys.argv) > 2 else "quick", lambda: main(sys.argv[2] if len(sys.argv) > 2 else "quick")))
